@@ -28,7 +28,8 @@ def main():
     for p in props:
         pid = p["id"]
         path = os.path.join(ROOT, "checks", pid.lower() + ".py")
-        if not os.path.exists(path):
+        claimed = open(os.path.join(ROOT, "tools", "claimed.txt")).read().split()
+        if not os.path.exists(path) or pid not in claimed:
             na.append(dict(property_id=pid, reason=TEXT.get(pid, {}).get("na_reason", "check not built yet in this session; no claim is made")))
             continue
         spec = spec_of(path)
